@@ -10,5 +10,5 @@ mkdir -p seed && cp $W/seed/demo.py seed/ 2>/dev/null; cp $W/seed/*.py seed/ 2>/
 echo "--- demo WITHOUT change:"; timeout 300 /venv/bin/python seed/demo.py > /tmp/seedverify.out 2>&1; echo "exit=$?"; tail -2 /tmp/seedverify.out
 git apply --whitespace=nowarn $W/seed/patch.diff || { echo "patch does not apply"; exit 3; }
 git diff --stat | tail -3
-echo "--- tests WITH change:"; timeout 900 /venv/bin/python -m pytest -q -p no:cacheprovider --timeout=900 2>&1 | tail -1
+echo "--- tests WITH change:"; unshare -n sh -c "ip link set lo up; timeout 900 /venv/bin/python -m pytest -q -p no:cacheprovider --timeout=900 2>&1 | tail -1"
 echo "--- demo WITH change:"; timeout 300 /venv/bin/python seed/demo.py > /tmp/seedverify.out 2>&1; echo "exit=$?"; tail -3 /tmp/seedverify.out
